@@ -359,7 +359,7 @@ pub fn items(entries: &[Entry], thorough: bool) -> usize {
 }
 
 pub fn run_item(entries: &[Entry], thorough: bool, pos: usize, d: &mut Driver, st: &mut Stats) -> Value {
-    vcommon::child::limit_memory(1 << 30);
+    vcommon::child::limit_memory_above_current(1 << 29);
     let list = mal_entries(entries, thorough);
     let e = list[pos];
     let ver = e.ty.max_version();
@@ -404,7 +404,7 @@ pub fn replay_case(entries: &[Entry], case: &Value, out: &mut Vec<Finding>, st: 
     let ver = case["version"].as_u64().unwrap_or(0) as u32;
     let t = Target::new(e, ver, c, ctx, ctx_ty(ctx, &e.ty));
     let input = vcommon::unhex(case["input"].as_str().unwrap_or(""));
-    vcommon::child::limit_memory(1 << 30);
+    vcommon::child::limit_memory_above_current(1 << 29);
     let mut emit = |_f: Finding| {};
     let mut d = Driver { pos: 0, skip_through: 0, sno: 0, emit: &mut emit };
     let mut sink = vec![];
